@@ -70,6 +70,34 @@ def object_events(entry, enc, tid0, rng, quick, run):
                   "syn_zero": bool((syn[i] == 0).all()) if (syn is not None and not raised) else True}
             evs.append(ev)
             run.case((entry.name, meth, m), nontrivial=m != 0)
+    # the same round trip with the message tensor in other forms: a leaf that requires grad, a dense transposed view, a strided view; a form may be
+    # rejected, but a message that comes back different is logged as one more Invert event
+    from .core import noncontiguous, transposed_view
+    subs = list(range(len(msgs))) if len(msgs) <= 16 else [0, 1, 2, len(msgs) // 2, len(msgs) - 1] + rng.sample(range(len(msgs)), 6)
+    for kind, Mf in (("requires_grad", M[subs].clone().requires_grad_(True)), ("transposed view", transposed_view(M[subs])), ("strided view", noncontiguous(M[subs]))):
+        try:
+            Cf = enc(Mf)
+        except Exception:
+            continue
+        for meth in METHODS:
+            f = getattr(enc, meth, None)
+            if f is None:
+                continue
+            try:
+                res = f(Cf.detach() if kind != "requires_grad" else Cf)
+                outf = _first(res).detach()
+                synf = res[1].detach() if isinstance(res, tuple) and len(res) > 1 and torch.is_tensor(res[1]) else None
+                if outf.shape != (len(subs), k):
+                    continue
+            except Exception:
+                continue
+            for j, i in enumerate(subs):
+                run.case((entry.name, meth, msgs[i], kind), nontrivial=msgs[i] != 0)
+                mh = fec.to_int(outf[j])
+                sz = bool((synf[j] == 0).all()) if synf is not None else True
+                if mh != msgs[i] or not sz:
+                    tid += 1
+                    evs.append({"ev": "Invert", "tid": tid, "method": meth, "m": fec.limbs(msgs[i], k), "raised": False, "mhat": fec.limbs(mh, k), "syn_zero": sz, "form": kind})
     # layouts
     layouts = []
     for b in (1, 2, 3, 4):
